@@ -4,7 +4,8 @@ handler), plus the number printing both formatters rely on.
 
 Numbers.  The AST carries exact rationals (`Expr.litF re im isComplex`, `Expr.litI v`); Python's
 float formatting is modelled on exact rationals:
-* `fmtFloat16 x`  = `f"{x:.16}"`  (float `__format__` without a type character and precision 16:
+* (`fmtFloat16 x` = `f"{x:.16}"`, the spelling `_format_number` used before /repo commit 74ce3e1;
+  kept as a model of Python's formatting only, no formatter handler uses it any more: float `__format__` without a type character and precision 16:
   correctly rounded — round-half-even on the exact value — to 16 significant digits, trailing
   zeros stripped, exponent notation iff `decpt ≤ -4 ∨ decpt > 15` where the value is
   `0.d₁d₂… · 10^decpt` AFTER rounding, i.e. iff the decimal exponent is `< -4` or `≥ 15`; at least one
@@ -190,6 +191,12 @@ def reprFloat (x : Rat) : List Char :=
   if x = 0 then ['0', '.', '0']
   else if x < 0 then '-' :: reprPos true (-x) else reprPos true x
 
+/-- value of the decimal `repr(x)` prints (the literal the C and numba formatters emit) -/
+def litValueR (x : Rat) : Rat :=
+  if x = 0 then 0
+  else if x < 0 then - (shortestFrom (-x) (decExp (-x)) 17 1).1.val
+  else (shortestFrom x (decExp x) 17 1).1.val
+
 /-- `'r'` format without `.0` (parts of a complex) -/
 def reprPart (x : Rat) : List Char :=
   if x = 0 then ['0']
@@ -333,13 +340,25 @@ def opTok : BinOp → P
   | .eq => .eqeq | .ne => .ne | .lt => .lt | .gt => .gt | .le => .le | .ge => .ge
   | .and => .andand | .or => .oror
 
-/-- `_format_number` -/
+/-- the `precedence` attribute the formatter reads off a node: the class attribute, except for a
+    `MultiIndex`, whose constructor sets `self.precedence = self.global_index.precedence` -/
+def precF : Expr → Nat
+  | .mi _ _ gi => precF gi
+  | e => e.prec
+
+/-- `text.startswith(c)` on rendered pieces -/
+def startsWith (c : Char) (ps : List Piece) : Bool :=
+  match render ps with
+  | d :: _ => d == c
+  | [] => false
+
+/-- `_format_number`: `repr(float(x))`, `({re!r}+I*{im!r})`, `str(int)` -/
 def cNumber (e : Expr) : List Piece :=
   match e with
   | .litF re im true =>
-    [pp .lpar] ++ numPieces (fmtFloat16 re) ++ [pp .plus, .t (.id "I"), pp .star]
-      ++ numPieces (fmtFloat16 im) ++ [pp .rpar]
-  | .litF re _ false => numPieces (fmtFloat16 re)
+    [pp .lpar] ++ numPieces (reprFloat re) ++ [pp .plus, .t (.id "I"), pp .star]
+      ++ numPieces (reprFloat im) ++ [pp .rpar]
+  | .litF re _ false => numPieces (reprFloat re)
   | .litI v => numPieces (fmtInt v)
   | _ => []
 
@@ -350,11 +369,11 @@ def piecesC (sc : Scalar) : Expr → List Piece
   | .litI v => cNumber (.litI v)
   | .sym n _ => [.t (.id n)]
   | .mi _ _ gi => piecesC sc gi
-  | .neg a => pp .minus :: parenIf (decide (a.prec ≥ 3)) (piecesC sc a)
-  | .not a => pp .bang :: parenIf (decide (a.prec ≥ 3)) (piecesC sc a)
+  | .neg a => pp .minus :: parenIf (decide (precF a ≥ 3) || startsWith '-' (piecesC sc a)) (piecesC sc a)
+  | .not a => pp .bang :: parenIf (decide (precF a ≥ 3) || startsWith '!' (piecesC sc a)) (piecesC sc a)
   | .bin op a b =>
-    parenIf (decide (a.prec ≥ op.prec)) (piecesC sc a) ++ [sp, pp (opTok op), sp]
-      ++ parenIf (decide (b.prec ≥ op.prec)) (piecesC sc b)
+    parenIf (decide (precF a ≥ op.prec)) (piecesC sc a) ++ [sp, pp (opTok op), sp]
+      ++ parenIf (decide (precF b ≥ op.prec)) (piecesC sc b)
   | .sum args => joinP [sp, pp .plus, sp] (piecesNary sc 5 args)
   | .prod args => joinP [sp, pp .star, sp] (piecesNary sc 4 args)
   | .call f dt args =>
@@ -362,12 +381,12 @@ def piecesC (sc : Scalar) : Expr → List Piece
   | .idx arr _ ix =>
     .t (.id arr) :: pp .lbrack :: joinP [pp .rbrack, pp .lbrack] (piecesList sc ix) ++ [pp .rbrack]
   | .cond c t f =>
-    parenIf (decide (c.prec ≥ 13)) (piecesC sc c) ++ [sp, pp .quest, sp]
-      ++ parenIf (decide (t.prec ≥ 13)) (piecesC sc t) ++ [sp, pp .colon, sp]
-      ++ parenIf (decide (f.prec ≥ 13)) (piecesC sc f)
+    parenIf (decide (precF c ≥ 13)) (piecesC sc c) ++ [sp, pp .quest, sp]
+      ++ parenIf (decide (precF t ≥ 13)) (piecesC sc t) ++ [sp, pp .colon, sp]
+      ++ parenIf (decide (precF f ≥ 13)) (piecesC sc f)
 def piecesNary (sc : Scalar) (p : Nat) : List Expr → List (List Piece)
   | [] => []
-  | a :: as => parenIf (decide (a.prec ≥ p)) (piecesC sc a) :: piecesNary sc p as
+  | a :: as => parenIf (decide (precF a ≥ p)) (piecesC sc a) :: piecesNary sc p as
 def piecesList (sc : Scalar) : List Expr → List (List Piece)
   | [] => []
   | a :: as => piecesC sc a :: piecesList sc as
@@ -444,7 +463,7 @@ def fmtStmtC (sc : Scalar) : Stmt → Option (List Char)
       some (strL "for (int " ++ strL i ++ strL " = " ++ fmtExprC sc lo ++ strL "; " ++ strL i
         ++ strL " < " ++ fmtExprC sc hi ++ strL "; ++" ++ strL i ++ strL ")\n{\n"
         ++ indentLines b ++ strL "}\n")
-  | .comment t => some (strL "// " ++ strL t ++ ['\n'])
+  | .comment t => some ((splitLines [] (strL t)).flatMap (fun l => strL "// " ++ l ++ ['\n']))
   | .block ss => fmtStmtsC sc ss
   | .sect name decls stmts inp out _ =>
     match fmtStmtsC sc decls, fmtStmtsC sc stmts with
